@@ -22,6 +22,10 @@
 pub mod c05_gen;
 #[path = "c05_tab.rs"]
 pub mod c05_tab;
+#[path = "c05_foreign.rs"]
+pub mod c05_foreign;
+#[path = "c05_reissue.rs"]
+pub mod c05_reissue;
 
 use self::c05_gen as gen;
 use self::c05_gen::ResShape;
@@ -1275,9 +1279,12 @@ fn do_cms(ctx: &mut Ctx, env: &Env, rng: &mut Rng, provisioning: bool) {
 
 //------------ driver ---------------------------------------------------------
 
-const KINDS: [&str; 16] = [
+const KINDS: [&str; 26] = [
     "cert-ca", "roa", "manifest", "crl", "aspa", "cert-ee", "cert-ta", "roa", "cert-router", "csr", "idcert-ta", "idcert-ee", "signed-message",
     "cert-detached-ee", "provisioning-cms", "publication-cms",
+    // builder inputs taken from decoded foreign objects (c05_reissue)
+    "reissue-crl", "reissue-cert-ca", "reissue-manifest", "reissue-cert-ta", "reissue-roa", "reissue-cert-ee", "reissue-aspa", "reissue-csr", "reissue-crl",
+    "reissue-idcert-ee",
 ];
 
 pub fn run(ctx: &mut Ctx) {
@@ -1287,7 +1294,7 @@ pub fn run(ctx: &mut Ctx) {
     }
     let Some(env) = setup(ctx) else { return };
     // objects per shard: native (quick, thorough), asan, miri, valgrind
-    let n = ctx.stage_budget((32_000, 1_500_000), 24_000, 0, 80);
+    let n = ctx.stage_budget((52_000, 1_500_000), 32_000, 0, 130);
     let mut rng = ctx.rng("objects");
     // valgrind: one round over the kinds per shard, started at different kinds
     let offset = if ctx.stage == Stage::Valgrind { (ctx.shard as usize * 3) % KINDS.len() } else { 0 };
@@ -1309,7 +1316,16 @@ pub fn run(ctx: &mut Ctx) {
             "idcert-ee" => do_idcert(ctx, &env, &mut rng, false),
             "signed-message" => do_sigmsg(ctx, &env, &mut rng),
             "provisioning-cms" => do_cms(ctx, &env, &mut rng, true),
-            _ => do_cms(ctx, &env, &mut rng, false),
+            "publication-cms" => do_cms(ctx, &env, &mut rng, false),
+            "reissue-crl" => c05_reissue::do_crl(ctx, &env, &mut rng),
+            "reissue-cert-ta" => c05_reissue::do_cert(ctx, &env, &mut rng, c05_foreign::Role::Ta),
+            "reissue-cert-ca" => c05_reissue::do_cert(ctx, &env, &mut rng, c05_foreign::Role::Ca),
+            "reissue-cert-ee" => c05_reissue::do_cert(ctx, &env, &mut rng, c05_foreign::Role::Ee),
+            "reissue-manifest" => c05_reissue::do_object(ctx, &env, &mut rng, c05_reissue::ObjKind::Manifest),
+            "reissue-roa" => c05_reissue::do_object(ctx, &env, &mut rng, c05_reissue::ObjKind::Roa),
+            "reissue-aspa" => c05_reissue::do_object(ctx, &env, &mut rng, c05_reissue::ObjKind::Aspa),
+            "reissue-csr" => c05_reissue::do_csr(ctx, &env, &mut rng),
+            _ => c05_reissue::do_idcert(ctx, &env, &mut rng),
         }
         ctx.obs("objects", 1);
         ctx.obs(&format!("objects:{}", kind), 1);
